@@ -114,13 +114,13 @@ def W_json(w):
 
 def W_mul(c, w):
     if "scalar" in w:
-        return {"scalar": q(F(c) * F(w["scalar"]))}
+        return {**w, "scalar": q(F(c) * F(w["scalar"]))}
     return {"vec": [q(F(c) * F(x)) for x in w["vec"]]}
 
 
 def W_add(a, b):
     if "scalar" in a and "scalar" in b:
-        return {"scalar": q(F(a["scalar"]) + F(b["scalar"]))}
+        return {**a, "scalar": q(F(a["scalar"]) + F(b["scalar"]))}
     return {"vec": [q(F(x) + F(y)) for x, y in zip(a["vec"], b["vec"])]}
 
 
@@ -270,6 +270,8 @@ def _w_jax(w):
     import jax.numpy as jnp
 
     if "scalar" in w:
+        if w.get("as") == "array0d":      # the same scalar weight held in a 0-d array (what jit makes of a float)
+            return jnp.asarray(float(F(w["scalar"])))
         return float(F(w["scalar"]))
     return jnp.asarray([float(F(x)) for x in w["vec"]])
 
@@ -820,7 +822,10 @@ def gen_eq(rng, case, ncomp):
 def gen_weight(rng, ncomp, allow_vec=True):
     if allow_vec and rng.random() < 0.5:
         return {"vec": [q(Fr(rng.randint(1, 6), 2)) for _ in range(ncomp)]}
-    return {"scalar": q(Fr(rng.randint(1, 6), 2))}
+    w = {"scalar": q(Fr(rng.randint(1, 6), 2))}
+    if rng.random() < 0.4:
+        w["as"] = "array0d"
+    return w
 
 
 def gen_inside(rng, kind, d, n, distinct=True):
@@ -1246,7 +1251,7 @@ def tags(case, obs):
     out.append(f"n={obs['n']}")
     if case.get("dyn"):
         out.append(f"ncomp={len(case['dyn']['eq'])}")
-        out.append("weight=" + ("scalar" if "scalar" in case["dyn"]["w"] else "vec"))
+        out.append("weight=" + (("scalar0d" if case["dyn"]["w"].get("as") else "scalar") if "scalar" in case["dyn"]["w"] else "vec"))
     out.append("ulp_rule" if F(obs["tol"]) != 0 else "exact")
     if case.get("spinn"):
         out.append("network=spinn")
